@@ -127,7 +127,15 @@ def _install_tripwire():
     if getattr(_reb.datetime, "_tesim_trip", False):
         return
 
-    class TripDatetime(datetime):
+    class _Transparent(type):
+        # the stand-in must not change what the patched modules' own isinstance(x, datetime) tests see
+        def __instancecheck__(cls, obj):
+            return isinstance(obj, datetime)
+
+        def __subclasscheck__(cls, sub):
+            return issubclass(sub, datetime)
+
+    class TripDatetime(datetime, metaclass=_Transparent):
         _tesim_trip = True
 
         @classmethod
@@ -185,6 +193,19 @@ def load_prop(prop):
 
 def _alarm_handler(signum, frame):
     raise RunTimeout("run exceeded its time limit")
+
+
+def library_site(exc):
+    """'file.py:function' of the innermost tradingenv frame an exception passed through, provided that
+    no harness frame lies below it (i.e. the library, not the harness, failed); None otherwise."""
+    import traceback
+    frames = traceback.extract_tb(exc.__traceback__)
+    for f in reversed(frames):
+        if "/tradingenv/" in f.filename:
+            return "{}:{}".format(os.path.basename(f.filename), f.name)
+        if "/tesim/" in f.filename:
+            return None
+    return None
 
 
 def execute_guarded(mod, scenario, limit=None):
